@@ -152,6 +152,8 @@ type c12World struct {
 	// skipped: the last scenario was abandoned after the twin had run but before the System under test did
 	// (nothing to judge); the two Systems' memories are then out of step and are wiped before the next one
 	skipped bool
+	// unlogged: the RunUntil call in progress has no logger attached (C14's reference run)
+	unlogged bool
 }
 
 var (
@@ -171,7 +173,13 @@ func c12Watchdog(r *report.Run, id string, limit time.Duration) {
 			for _, w := range c12WatchWorlds {
 				if w.busy != nil && time.Since(w.started) > limit {
 					rr := *w.busy
+					unlogged := w.unlogged
 					c12WatchMu.Unlock()
+					if id == "C14" && unlogged {
+						// the call that hangs has no logger attached: whether RunUntil returns is C12's property
+						r.Incomplete("exploration abandoned: a RunUntil call WITHOUT a logger did not return (see C12); nothing can be said about tracing beyond the cases already covered")
+						r.Finish()
+					}
 					r.Incomplete("exploration abandoned: a RunUntil call did not return")
 					r.Violation("unexplained:rununtil-does-not-return", fmt.Sprintf("RunUntil did not return within %v (program %v at $%06x target $%06x budget %d logger %d): it keeps looping without consuming cycles", limit, rr.Prog, rr.Start, rr.Target, rr.Budget, rr.Logger), rr)
 					r.Finish()
